@@ -676,7 +676,10 @@ def check_rates(case):
         expected_subs += bp[bi] * rates[bi] * L * -(w * numpy.diag(Q)).sum()
     if abs(expected_subs - L) > 1e-9 * max(1.0, L):
         raise Broken("length-is-not-expected-substitutions", f"sum_b bprob_b rate_b len (-sum pi Q_ii) = {expected_subs!r}, length {L}")
-    allu = {tuple(str(x) for x in k): arr(v) for k, v in lf.get_all_rate_matrices(calibrated=False).items()}
+    try:
+        allu = {tuple(str(x) for x in k): arr(v) for k, v in lf.get_all_rate_matrices(calibrated=False).items()}
+    except (IndexError, KeyError) as e:
+        raise Broken("Q-get_all_rate_matrices-uncalibrated-raises", f"{type(e).__name__}: {e}")
     for k, U in allu.items():
         bi = [i for i, b in enumerate(bnames) if b in k]
         r = rates[bi[0]] if bi else 1.0
